@@ -461,7 +461,8 @@ async fn do_compact(store: &ScriptedObjectStore, scn: &Value, opi: usize, fault:
     store.log(json!({"a": "compact_begin", "gc_before": now.saturating_sub(ttl)}));
     let mm = ManifestManager::new(cs.clone(), PREFIX);
     let mut c = Compactor::with_time_source(Arc::new(cs.clone()), PREFIX.to_string(), mm, cfg, HarnessTime(Arc::new(Mutex::new(now))));
-    let r = c.compact().await;
+    // every other compaction goes through the worker's entry point (needs_compaction, then compact): same rules
+    let r = if opi % 2 == 1 { c.compact_if_needed().await.map(|_| ()) } else { c.compact().await.map(|_| ()) };
     store.log(json!({"a": "compact_end", "ok": r.is_ok(), "res": match &r { Ok(_) => "ok".to_string(), Err(e) => e.to_string() }}));
     cs.finish_actor();
 }
